@@ -161,7 +161,17 @@ fn check_backend<F: Backend>(
     // each exported node is judged with the chain rule applied to the
     // operand duals of the all-nodes twin, and its value against the twin's.
     let mut r = crate::util::Rng::new(p.hash() ^ samples.len() as u64);
-    let subset: Vec<usize> = (0..order.len()).filter(|i| *i + 1 == order.len() || r.chance(0.35)).collect();
+    let mut subset: Vec<usize> = (0..order.len()).filter(|i| *i + 1 == order.len() || r.chance(0.35)).collect();
+    // the same node in more than one output slot (a Context deduplicates
+    // equal expressions, so this is what exporting `f` twice looks like)
+    if r.chance(0.3) {
+        for _ in 0..1 + r.below(2) {
+            let dup = subset[r.below(subset.len())];
+            let at = r.below(subset.len() + 1);
+            subset.insert(at, dup);
+        }
+        st.inc("partial_export_functions_with_repeated_outputs");
+    }
     let sub_nodes: Vec<Node> = subset.iter().map(|&i| order[i]).collect();
     let fsub = F::new(&b.ctx, &sub_nodes).unwrap();
     let sslot = slot_map(fsub.vars(), &b.vars).unwrap();
